@@ -40,10 +40,9 @@ func assertSessionRelation(tok session.Object, cnr cid.ID, obj oid.ID) error {
 		return errors.New("requested container is not related to the session")
 	}
 
-	// if session relates to object's removal, we don't check
-	// relation of the tombstone to the session here since user
-	// can't predict tomb's ID.
-	if !tok.AssertVerb(session.VerbObjectDelete) && !obj.IsZero() && !tok.AssertObject(obj) {
+	// (when a tombstone is being saved the caller passes no object: the user
+	// can't predict tomb's ID, so it is not what the session is bound to)
+	if !obj.IsZero() && !tok.AssertObject(obj) {
 		return errors.New("requested object is not related to the session")
 	}
 
